@@ -105,6 +105,7 @@ def compare(c, dump):
             kind = g["desc"].split()[0].upper() if g["desc"] else ""
             if not a or (a["lo"], a["hi"] if a["hi"] < 2147483647 else -1, a["uniq"], a["optelem"]) != (b["lo"], b["hi"], b["uniq"], b["optelem"]) or kind != b["agg"]:
                 out.append(("aggregate", "%s: %s %s, declared %s" % (t["name"], kind, a, express.typeref(b))))
+            flags(b, g.get("ty"), "TYPE " + t["name"], out)
         # a renamed type names its underlying type either as the referent descriptor or in its description text
         if t["k"] == "rename" and g["ref"].lower() != t["base"]["base"].lower() and \
                 not re.match(r"type%s=%s(--.*)?$" % (t["name"].lower(), t["base"]["base"].lower()), norm(g["desc"])):
